@@ -226,7 +226,7 @@ def handle (s : St) (line : String) : St :=
           !a.deny.contains e.clock.id && !b.invalid.contains e.hash && (a.deny.isEmpty || !b.noIdent.contains e.hash) && e.logId == a.log.id))
           (s!"join {r} {r2}: " ++ showH s ((added.filter (fun e => !( !a.deny.contains e.clock.id && !b.invalid.contains e.hash && (a.deny.isEmpty || !b.noIdent.contains e.hash) && e.logId == a.log.id))).map (·.hash)))
         s.setRep r.toNat! { a with log := l', invalid := a.invalid.filter (fun h => has l'.entries h),
-                                   noIdent := a.noIdent ++ (b.noIdent.filter (fun h => has l'.entries h && !has a.log.entries h)),
+                                   noIdent := a.noIdent.filter (fun h => has l'.entries h) ++ (b.noIdent.filter (fun h => has l'.entries h && !has a.log.entries h)),
                                    partialLog := a.partialLog || cut || ((b.partialLog || b.hasWrongId) && a.log.id == b.log.id),
                                    orderFree := a.orderFree || (b.orderFree && a.log.id == b.log.id) }
     | _, _ => s.diff "join-unknown-replica" r r2
